@@ -4,6 +4,11 @@ HOOK_COMMITS = ["3294ba2"]
 
 NOT_APPLICABLE = {}
 
+_SEARCH = (" Beyond the theorems (search aid, not part of the proof level): small concurrent scenarios of this property "
+           "are run against the real crate under loom 0.7 (all interleavings up to a preemption bound, C11 memory model; "
+           "the protected payload is a loom UnsafeCell, so an exclusion failure or a missing happens-before edge is a "
+           "causality violation); a failing scenario is reported as a violation with the scenario as replay.")
+
 _TIE = ("The model is tied to /repo on every run: the same step functions (compiled) and the real crate are run on "
         "exhaustive (state-pruned DFS) and seeded random histories and their observations compared after every operation; "
         "the property's monitor is evaluated on the implementation's traces.")
@@ -19,23 +24,23 @@ CLAIMS = {
         "technique": "Lean 4 theorems (reachability in a capability graph; decide over the complete finite table) about a table regenerated from rustc's verdicts on /repo on every run",
     },
     "C01": {
-        "text": "Exclusion (at most one guard; the state word equals guards + 2*starved operations; a guard is only handed out when none is alive) is a Lean theorem over every finite history of the poll-granular Mutex model: every mix of lock/lock_arc/try_lock/try_lock_arc, cancellation at any point, the 0.5 ms branch taken or not at every evaluation point. " + _TIE + " Compared fields: outcome and state word.",
+        "text": "Exclusion (at most one guard; the state word equals guards + 2*starved operations; a guard is only handed out when none is alive) is a Lean theorem over every finite history of the poll-granular Mutex model: every mix of lock/lock_arc/try_lock/try_lock_arc, cancellation at any point, the 0.5 ms branch taken or not at every evaluation point. " + _TIE + " Compared fields: outcome and state word." + _SEARCH,
         "note": "PARTIAL: atomic calls (poll-granular); interleavings of atomic operations and the release-happens-before-acquire clause are not yet covered by a theorem. event-listener is modelled, not verified.",
     },
     "C02": {
-        "text": "Exclusion (at most one write guard and then no other guard; at most one upgradable guard) is a Lean theorem over every finite history of the poll-granular RwLock model over the full alphabet (start/poll/cancel of read, upgradable_read, write and upgrade futures, borrowed and Arc; try_*; upgrade; try_upgrade; the three downgrades; guard drops). The invariant WordInv determines both words exactly: mutex.state = (W+U+PW+PU) + 2*starved, state = (W+PW+PU) + 2*(R+U), W+U+PW+PU <= 1, a write guard is alone. " + _TIE + " Compared fields: outcome and both state words.",
+        "text": "Exclusion (at most one write guard and then no other guard; at most one upgradable guard) is a Lean theorem over every finite history of the poll-granular RwLock model over the full alphabet (start/poll/cancel of read, upgradable_read, write and upgrade futures, borrowed and Arc; try_*; upgrade; try_upgrade; the three downgrades; guard drops). The invariant WordInv determines both words exactly: mutex.state = (W+U+PW+PU) + 2*starved, state = (W+PW+PU) + 2*(R+U), W+U+PW+PU <= 1, a write guard is alone. " + _TIE + " Compared fields: outcome and both state words." + _SEARCH,
         "note": "PARTIAL: atomic calls (poll-granular); interleavings and the happens-before clauses are not yet covered by a theorem. Reader-count overflow aborts are outside the model.",
     },
     "C11": {
-        "text": "The slot invariant (at most one of write guard / upgradable guard / writer waiting for readers / pending upgrade, at every state of every history), the fact that try_upgrade, upgrade() and downgrade_to_upgradable never touch the inner mutex, and 'a pending upgrade excludes writers and upgradable readers' are Lean theorems on the poll-granular RwLock model. " + _TIE + " Compared fields: outcome and both state words; monitors C11 (slot word) and C02.",
+        "text": "The slot invariant (at most one of write guard / upgradable guard / writer waiting for readers / pending upgrade, at every state of every history), the fact that try_upgrade, upgrade() and downgrade_to_upgradable never touch the inner mutex, and 'a pending upgrade excludes writers and upgradable readers' are Lean theorems on the poll-granular RwLock model. " + _TIE + " Compared fields: outcome and both state words; monitors C11 (slot word) and C02." + _SEARCH,
         "note": "PARTIAL: atomic calls; the value clause is derived from exclusive access (C02) rather than from a payload model.",
     },
     "C06": {
-        "text": "All four clauses (nothing pending with no guard alive; no read() pending without writer; no upgradable_read() pending with a free slot; no writer/upgrade pending once no reader is left) are Lean theorems over every finite history of the poll-granular RwLock model (full alphabet, borrowed and Arc, cancellation at every point, completed futures kept alive). They rest on three inductive invariants proved for every reachable state: WordInv (who holds what), RegInv (which future is registered on which of the three events; no stale listeners) and WakeInv (a notified listener's owner has an outstanding wake-up; the inner mutex, no_writer and no_readers each hold a notification whenever a registered waiter could proceed). " + _TIE + " Compared fields: outcome, wakers called, both words, listener counts and notified flags of all three events.",
+        "text": "All four clauses (nothing pending with no guard alive; no read() pending without writer; no upgradable_read() pending with a free slot; no writer/upgrade pending once no reader is left) are Lean theorems over every finite history of the poll-granular RwLock model (full alphabet, borrowed and Arc, cancellation at every point, completed futures kept alive). They rest on three inductive invariants proved for every reachable state: WordInv (who holds what), RegInv (which future is registered on which of the three events; no stale listeners) and WakeInv (a notified listener's owner has an outstanding wake-up; the inner mutex, no_writer and no_readers each hold a notification whenever a registered waiter could proceed). " + _TIE + " Compared fields: outcome, wakers called, both words, listener counts and notified flags of all three events." + _SEARCH,
         "note": "PARTIAL: polls are atomic in the model; thread interleavings are not covered by the theorems. event-listener is modelled, not verified. Reading: a never-polled live upgrade future counts as a holder.",
     },
     "C09": {
-        "text": "For every n and every finite history of the poll-granular Barrier model (any number of waits, spurious polls, new wakers, cancellation at any point, any number of generations): arrivals = generations * max(n,1) + count with count < max(n,1) and exactly one leader per completed generation (C09_accounting); a follower returns only when its arrival generation is complete and the leader is the arrival that completes it (C09_no_early); at quiescence no live wait of a completed generation is pending (C09_release); a wait of the current generation never completes whatever notification reaches it (C09_isolation) - Lean theorems from the invariant BInv. " + _TIE + " Compared fields: outcome (leader/follower), wakers called, inner mutex word, count, generation, listener counts.",
+        "text": "For every n and every finite history of the poll-granular Barrier model (any number of waits, spurious polls, new wakers, cancellation at any point, any number of generations): arrivals = generations * max(n,1) + count with count < max(n,1) and exactly one leader per completed generation (C09_accounting); a follower returns only when its arrival generation is complete and the leader is the arrival that completes it (C09_no_early); at quiescence no live wait of a completed generation is pending (C09_release); a wait of the current generation never completes whatever notification reaches it (C09_isolation) - Lean theorems from the invariant BInv. " + _TIE + " Compared fields: outcome (leader/follower), wakers called, inner mutex word, count, generation, listener counts." + _SEARCH,
         "note": "PARTIAL: atomic polls (the embedded mutex's slow path and thread interleavings are not exercised by this model); wait_blocking not modelled.",
     },
     "C10": {
@@ -43,7 +48,7 @@ CLAIMS = {
         "note": "PARTIAL: 'as if never started' is claimed as exact accounting and equal grants, not trace equality; atomic calls; the thread race 'drop a pending future while another thread releases' is not covered by the theorems.",
     },
     "C12": {
-        "text": "At every quiescent state of every history with a polled pending write() or a pending upgrade and no write/upgradable guard alive, the writer bit is set (theorem C12); in any state with the bit set try_read fails and polls of read() futures return Pending; nothing a reader does changes the bit - Lean theorems on the poll-granular RwLock model. " + _TIE + " The harness additionally probes try_read on the implementation at every such quiescent point.",
+        "text": "At every quiescent state of every history with a polled pending write() or a pending upgrade and no write/upgradable guard alive, the writer bit is set (theorem C12); in any state with the bit set try_read fails and polls of read() futures return Pending; nothing a reader does changes the bit - Lean theorems on the poll-granular RwLock model. " + _TIE + " The harness additionally probes try_read on the implementation at every such quiescent point." + _SEARCH,
         "note": "PARTIAL: atomic polls; the 'lasts until' clause is stated as: only a writer's release/downgrade or the cancellation of the waiting writer can clear the bit.",
     },
     "C14": {
@@ -51,27 +56,27 @@ CLAIMS = {
         "note": "PARTIAL: atomic calls; 'never succeeds in conflict' under interleavings not yet covered by a theorem.",
     },
     "C15": {
-        "text": "In the models the strong count is a counter updated exactly where the code clones, moves or drops the Arc; Lean theorems state that after every history (Mutex, Semaphore, RwLock; conversions, forget, cancellation at any point, handles cloned and dropped down to zero) it equals user handles + owned guards alive + owning futures (lock_arc until completion, UpgradeArc until completion or drop, acquire_arc until drop), hence never over-releases, and is zero exactly when none is left. " + _TIE + " Compared fields: outcome, Arc::strong_count, and the payload's drop counter (dropped exactly once).",
-        "note": "Arc is modelled, not verified. A memory error that leaves the count unchanged (e.g. unlocking through a dangling reference after the Arc was freed) is outside this check.",
+        "text": "In the models the strong count is a counter updated exactly where the code clones, moves or drops the Arc; Lean theorems state that after every history (Mutex, Semaphore, RwLock; conversions, forget, cancellation at any point, handles cloned and dropped down to zero) it equals user handles + owned guards alive + owning futures (lock_arc until completion, UpgradeArc until completion or drop, acquire_arc until drop), hence never over-releases, and is zero exactly when none is left. " + _TIE + " Compared fields: outcome, Arc::strong_count, and the payload's drop counter (dropped exactly once)." + " Search aid: the harness replays last-owner histories and random ones under Miri (use-after-free, leaks).",
+        "note": "Arc is modelled, not verified. A memory error that leaves the count unchanged (e.g. unlocking through a dangling reference after the Arc was freed) is outside the theorems; the Miri run searches for it.",
     },
     "C03": {
-        "text": "Conservation, no over-issue, exactness of try_acquire and the per-operation permit deltas are Lean theorems over every initial count and every finite operation sequence of the poll-granular Semaphore model (induction on the history). " + _TIE + " Compared fields: outcome and permit counter.",
+        "text": "Conservation, no over-issue, exactness of try_acquire and the per-operation permit deltas are Lean theorems over every initial count and every finite operation sequence of the poll-granular Semaphore model (induction on the history). " + _TIE + " Compared fields: outcome and permit counter." + _SEARCH,
         "note": "PARTIAL: poll-granular (atomic calls); usize wrap-around outside the model (Nat); interleavings not yet covered by a theorem.",
     },
     "C04": {
-        "text": "Lean theorems over every finite history of the poll-granular OnceCell model (any number of wait/get_or_init/get_or_try_init/set callers, initialisers resolved ok/err/panic or cancelled at any await point in any order, take between epochs): at most one initialiser runs and none once initialised (state 1 iff exactly one live caller holds the guard; a value is stored iff state 2); a stored value is never replaced until take/drop; whatever a completed caller reports is the stored value; set hands its argument back exactly when its closure did not run; take re-opens the cell. " + _TIE + " Compared fields: outcome (incl. reported value), state word, stored value, drop count.",
+        "text": "Lean theorems over every finite history of the poll-granular OnceCell model (any number of wait/get_or_init/get_or_try_init/set callers, initialisers resolved ok/err/panic or cancelled at any await point in any order, take between epochs): at most one initialiser runs and none once initialised (state 1 iff exactly one live caller holds the guard; a value is stored iff state 2); a stored value is never replaced until take/drop; whatever a completed caller reports is the stored value; set hands its argument back exactly when its closure did not run; take re-opens the cell. " + _TIE + " Compared fields: outcome (incl. reported value), state word, stored value, drop count." + _SEARCH,
         "note": "PARTIAL: 'dropped exactly once' is checked by the harness's per-instance drop log (and the drop count is compared with the model) but not yet a theorem; publication ordering and blocking forms are outside this model; atomic polls.",
     },
     "C08": {
-        "text": "Lean theorems over every finite history of the OnceCell model: once initialised and with no outstanding wake-up nobody polled is pending (C08_init); state 1 holds exactly while a live caller runs its initialiser, so Err, panic and cancellation all leave it (C08_not_stuck); in state 0 with no outstanding wake-up no polled get_or_init-style caller is pending, i.e. one was woken and took over (C08_handover); an error or panic is reported only in the poll in which the caller's own initialiser produced it (C08_blame). Invariants: WInv, RInv (registration on active_initializers / passive_waiters, no stale listeners), KInv (wake bookkeeping; all listeners notified in state 2; a notified active listener in state 0). " + _TIE,
+        "text": "Lean theorems over every finite history of the OnceCell model: once initialised and with no outstanding wake-up nobody polled is pending (C08_init); state 1 holds exactly while a live caller runs its initialiser, so Err, panic and cancellation all leave it (C08_not_stuck); in state 0 with no outstanding wake-up no polled get_or_init-style caller is pending, i.e. one was woken and took over (C08_handover); an error or panic is reported only in the poll in which the caller's own initialiser produced it (C08_blame). Invariants: WInv, RInv (registration on active_initializers / passive_waiters, no stale listeners), KInv (wake bookkeeping; all listeners notified in state 2; a notified active listener in state 0). " + _TIE + _SEARCH,
         "note": "PARTIAL: atomic polls; blocking forms and thread interleavings not covered. event-listener is modelled (notify_additional(usize::MAX) as 'notify every listener').",
     },
     "C05": {
-        "text": "No-lost-wake-up for the Mutex is a Lean theorem (invariant MInv: word, registration, wake bookkeeping, baton; induction over every history: any number of futures, cancellation at any moment of a future's life, completed futures kept alive, spurious polls and new wakers, bargers, both outcomes of the starvation test) about a model that includes event-listener's list semantics; the most-recent-waker clause is a separate theorem. " + _TIE + " Compared fields: outcome, wakers called, state word, listener count, notified flag.",
+        "text": "No-lost-wake-up for the Mutex is a Lean theorem (invariant MInv: word, registration, wake bookkeeping, baton; induction over every history: any number of futures, cancellation at any moment of a future's life, completed futures kept alive, spurious polls and new wakers, bargers, both outcomes of the starvation test) about a model that includes event-listener's list semantics; the most-recent-waker clause is a separate theorem. " + _TIE + " Compared fields: outcome, wakers called, state word, listener count, notified flag." + _SEARCH,
         "note": "PARTIAL: polls are atomic in the model; thread interleavings and lock_blocking waiters are not covered by the theorem. event-listener is modelled, not verified (but executes in-process in every differential run).",
     },
     "C07": {
-        "text": "No-lost-wake-up for the Semaphore is a Lean theorem (invariant WInv + Own, induction over every history: any number of futures, cancellation at any point, completed futures kept alive, add_permits(n) for any n) about a model that includes event-listener's list semantics. " + _TIE + " Compared fields: outcome, wakers called, counter, listener count, notified flag.",
+        "text": "No-lost-wake-up for the Semaphore is a Lean theorem (invariant WInv + Own, induction over every history: any number of futures, cancellation at any point, completed futures kept alive, add_permits(n) for any n) about a model that includes event-listener's list semantics. " + _TIE + " Compared fields: outcome, wakers called, counter, listener count, notified flag." + _SEARCH,
         "note": "PARTIAL: polls are atomic in the model; event-listener is modelled, not verified (but executes in-process in every differential run).",
     },
     "C13": {
